@@ -2358,4 +2358,199 @@ theorem normResponses_isObj {rec : Rec} {j r : Json} (h : normResponses rec j = 
   repeat (split at h; (· simp at h))
   simp only [pure, Except.pure, Except.ok.injEq] at h; rw [concatMembers_eq] at h; exact ⟨_, h.symm⟩
 
+
+/-! ### Paths -/
+
+theorem normPaths_second {rec : Rec} (hr : RecGood rec) {j r : Json} (h : normPaths rec j = .ok r)
+    (hc : Clean r) : normPaths rec r = .ok r := by
+  have hnd := normPaths_nd hr.nd h
+  cases j with
+  | null => simp [normPaths, pure, Except.pure] at h; subst h; rfl
+  | bool _ => simp [normPaths, goError] at h
+  | num _ => simp [normPaths, goError] at h
+  | str _ => simp [normPaths, goError] at h
+  | arr _ => simp [normPaths, goError] at h
+  | obj ms =>
+    simp only [normPaths, bind, Except.bind] at h
+    split at h
+    · simp at h
+    · rename_i exts hexts
+      split at h
+      · simp at h
+      · rename_i pths hpths
+        simp only [pure, Except.pure, Except.ok.injEq] at h; subst h
+        rw [concatMembers_eq] at hnd hc ⊢
+        have hfl : [exts, pths].flatten = exts ++ pths := by simp
+        rw [hfl] at hnd hc ⊢
+        have hout : (keysOf (exts ++ pths)).Nodup := by simpa [ND, keysOf] using hnd.1
+        have hclean : CleanM (exts ++ pths) := by simpa [Clean] using hc
+        have hes := mapMembersR_sorted _ exts hexts
+        have hps := mapMembersR_sorted _ pths hpths
+        have hex : ∀ m ∈ exts, isExtKey m.1 = true := by
+          intro m hm
+          obtain ⟨x, hx, h1, _⟩ := mapMembersR_mem _ exts hexts m hm
+          rw [← h1]; exact (List.mem_filter.mp hx).2
+        have hpx : ∀ m ∈ pths, startsWithSlash m.1 = true := by
+          intro m hm
+          obtain ⟨x, hx, h1, _⟩ := mapMembersR_mem _ pths hpths m hm
+          rw [← h1]; exact (List.mem_filter.mp hx).2
+        have hraw_mem := toGoMap_mem_iff (exts ++ pths) hout
+        have hraw_sorted := toGoMap_sorted (exts ++ pths)
+        have he : (rawMap (exts ++ pths)).filter (fun m => isExtKey m.1) = exts := by
+          apply sorted_ext (keysSorted_filter _ hraw_sorted) hes
+          intro m
+          simp only [rawMap, List.mem_filter, hraw_mem m, List.mem_append]
+          constructor
+          · rintro ⟨h1 | h1, h2⟩
+            · exact h1
+            · have := startsWithSlash_not_ext m.1 (hpx m h1); rw [h2] at this; simp at this
+          · intro h1; exact ⟨.inl h1, hex m h1⟩
+        have hp : (rawMap (exts ++ pths)).filter (fun m => startsWithSlash m.1) = pths := by
+          apply sorted_ext (keysSorted_filter _ hraw_sorted) hps
+          intro m
+          simp only [rawMap, List.mem_filter, hraw_mem m, List.mem_append]
+          constructor
+          · rintro ⟨h1 | h1, h2⟩
+            · have := startsWithSlash_not_ext m.1 h2; rw [hex m h1] at this; simp at this
+            · exact h1
+          · intro h1; exact ⟨.inr h1, hpx m h1⟩
+        have h1 : mapMembersR normAny exts = .ok exts := mapMembersR_fixed exts hes (fun m hm => by
+          obtain ⟨x, _, _, hx⟩ := mapMembersR_mem _ exts hexts m hm
+          exact normAny_idem hx)
+        have h2 : mapMembersR (rec (.kind "pathItem")) pths = .ok pths :=
+          mapMembersR_second hpths (fun x y hx hy _ => hr.idem _ x y hx hy)
+            (fun m hm => cleanM_vals hclean m (List.mem_append.mpr (.inr hm)))
+        simp only [normPaths, bind, Except.bind, he, hp, h1, h2, pure, Except.pure]
+        rw [concatMembers_eq, hfl]
+
+theorem normPaths_isObj {rec : Rec} {j r : Json} (h : normPaths rec j = .ok r) : ∃ ms, r = .obj ms := by
+  cases j with
+  | null => simp [normPaths, pure, Except.pure] at h; exact ⟨[], h.symm⟩
+  | bool _ => simp [normPaths, goError] at h
+  | num _ => simp [normPaths, goError] at h
+  | str _ => simp [normPaths, goError] at h
+  | arr _ => simp [normPaths, goError] at h
+  | obj ms =>
+    simp only [normPaths, bind, Except.bind] at h
+    repeat (split at h; (· simp at h))
+    simp only [pure, Except.pure, Except.ok.injEq] at h; rw [concatMembers_eq] at h; exact ⟨_, h.symm⟩
+
+/-! ### the dispatcher and the recursion -/
+
+theorem normConcatKind_isObj {rec : Rec} {ki : KindInfo} {j r : Json} (h : normConcatKind rec ki j = .ok r) :
+    ∃ ms, r = .obj ms := by
+  simp only [normConcatKind, bind, Except.bind] at h
+  repeat (split at h; (· simp at h))
+  simp only [pure, Except.pure, Except.ok.injEq] at h; rw [concatMembers_eq] at h; exact ⟨_, h.symm⟩
+
+/-- kinds that go through the generic `ConcatJSON` codec -/
+def regularKinds : List KindInfo :=
+  Gen.kinds.filter fun ki => !(["schema", "response", "responses", "paths", "securityScheme"].contains ki.kind) &&
+    ki.marshalShape != "reflect"
+
+/-- everything the idempotence argument needs from the GENERATED tables, beyond `TablesOK` -/
+structure IdemTablesOK : Prop where
+  base : TablesOK
+  schemaOmit : schemaAllOmit = true
+  noDead : regularKinds.all (fun ki => (deadTargets ki).isEmpty) = true
+
+theorem normKind_isObj {rec : Rec} (k : String) {j r : Json} (h : normKind rec k j = .ok r) : ∃ ms, r = .obj ms := by
+  unfold normKind at h
+  split at h
+  · exact normSchema_isObj h
+  · split at h
+    · exact normResponse_isObj h
+    · split at h
+      · exact normResponses_isObj h
+      · split at h
+        · exact normPaths_isObj h
+        · split at h
+          · exact normSecurityScheme_isObj h
+          · split at h
+            · simp at h
+            · split at h
+              · simp only [bind, Except.bind] at h
+                split at h
+                · simp at h
+                · simp only [pure, Except.pure, Except.ok.injEq] at h; exact ⟨_, h.symm⟩
+              · exact normConcatKind_isObj h
+
+theorem normKind_second {rec : Rec} (hr : RecGood rec) (ok : IdemTablesOK) (k : String) {j r : Json}
+    (h : normKind rec k j = .ok r) (hc : Clean r) : normKind rec k r = .ok r := by
+  have hcu := ok.base.custom
+  simp only [customKindsOK, Bool.and_eq_true] at hcu
+  unfold normKind at h ⊢
+  split at h
+  · rename_i hk; simp only [hk, if_true]; exact normSchema_second hr ok.base.tables hcu.1.1 ok.schemaOmit h hc
+  · rename_i hk1
+    simp only [hk1, if_false]
+    split at h
+    · rename_i hk; simp only [hk, if_true]; exact normResponse_second hr ok.base.tables hcu.1.2 h hc
+    · rename_i hk2
+      simp only [hk2, if_false]
+      split at h
+      · rename_i hk; simp only [hk, if_true]; exact normResponses_second hr h hc
+      · rename_i hk3
+        simp only [hk3, if_false]
+        split at h
+        · rename_i hk; simp only [hk, if_true]; exact normPaths_second hr h hc
+        · rename_i hk4
+          simp only [hk4, if_false]
+          split at h
+          · rename_i hk; simp only [hk, if_true]; exact normSecurityScheme_second hr ok.base.tables hcu.2 h hc
+          · rename_i hk5
+            simp only [hk5, if_false]
+            split at h
+            · simp at h
+            · rename_i ki hki
+              simp only [Bool.false_eq_true, if_false]
+              have hmem : ki ∈ Gen.kinds := List.mem_of_find?_eq_some hki
+              have hkind : ki.kind = k := by simpa using List.find?_some hki
+              split at h
+              · rename_i hshape
+                simp only [hshape, if_true]
+                simp only [bind, Except.bind] at h ⊢
+                split at h
+                · simp at h
+                · rename_i ms hms
+                  simp only [pure, Except.pure, Except.ok.injEq] at h; subst h
+                  rw [normReflect_second hr ok.base.tables _ hms hc]
+                  rfl
+              · rename_i hshape
+                simp only [hshape, Bool.false_eq_true, if_false]
+                have hparts := List.all_eq_true.mp ok.base.kinds ki hmem
+                have hreg : ki ∈ regularKinds := by
+                  unfold regularKinds
+                  refine List.mem_filter.mpr ⟨hmem, ?_⟩
+                  simp only [Bool.and_eq_true, Bool.not_eq_true', bne_iff_ne, ne_eq]
+                  refine ⟨?_, by simpa using hshape⟩
+                  rw [hkind]
+                  simp only [List.contains_cons, List.contains_nil, Bool.or_false, Bool.or_eq_false_iff]
+                  exact ⟨by simpa using hk1, by simpa using hk2, by simpa using hk3, by simpa using hk4, by simpa using hk5⟩
+                have hdead : deadTargets ki = [] := by
+                  have := List.all_eq_true.mp ok.noDead ki hreg
+                  simpa using this
+                exact normConcatKind_second hr ok.base.tables ki hparts hdead h hc
+
+/-- the recursion closes -/
+theorem normF_good (ok : IdemTablesOK) : ∀ fuel, RecGood (normF fuel) := by
+  intro fuel
+  induction fuel with
+  | zero =>
+    exact ⟨fun t v r h => by simp [normF] at h, fun k v r h => by simp [normF] at h, normF_nd ok.base 0⟩
+  | succ n ih =>
+    refine ⟨?_, ?_, normF_nd ok.base (n + 1)⟩
+    · intro t v r h hc
+      cases t with
+      | kind k => simpa [normF] using normKind_second ih ok k (by simpa [normF] using h) hc
+      | named nm => simpa [normF] using normNamed_second ih nm (by simpa [normF] using h) hc
+    · intro k v r h
+      exact normKind_isObj k (by simpa [normF] using h)
+
+/-- **C07 for whole documents, at any fuel**: decoding and encoding the output again, with the same budget,
+returns the output. -/
+theorem normF_idem (ok : IdemTablesOK) (fuel : Nat) (k : String) (j j₁ : Json)
+    (h : normF fuel (.kind k) j = .ok j₁) (hc : Clean j₁) : normF fuel (.kind k) j₁ = .ok j₁ :=
+  (normF_good ok fuel).idem _ _ _ h hc
+
 end SpecModel.Codec
